@@ -200,6 +200,9 @@ func (ctrler *GovCtrler) ValidateTrx(ctx *ctrlertypes.TrxContext) xerrors.XError
 				if checkGovParams.HasNegative() {
 					return xerrors.ErrInvalidTrxPayloadParams.Wrap(errors.New("wrong options: negative value"))
 				}
+				if checkGovParams.HasStakeOverMaxPower() {
+					return xerrors.ErrInvalidTrxPayloadParams.Wrap(errors.New("wrong options: minimum stake exceeds the max total power"))
+				}
 			}
 		}
 		endVotingHeight := txpayload.StartVotingHeight + txpayload.VotingPeriodBlocks
